@@ -33,8 +33,9 @@ OPEN_STATEMENTS = [
     'binary_code_transform_term_encoded, binary_code_transform_sum; instances for every n: bct_jw_matrix, bct_bk_matrix, '
     'bct_parity_matrix, bct_interleaved_matrix, bct_checksum_matrix (parity sector); bct_jw_eq_jw: same matrix elements as the '
     'C04 Model of jordan_wigner; bk_encoder_rows, bk_code_encoding_is_spec, bct_bk_eq_bk: same matrix elements between '
-    'encoded states as the C05 Model of bravyi_kitaev); not proved: the structural hypotheses (decoder components are polynomials without empty '
-    'monomials) for segment / binary addressing codes and for derived codes (c + d, c * d, k * c), the regime where __isub__ / += / compress() drop a non-zero coefficient below '
+    'encoded states as the C05 Model of bravyi_kitaev); the structural hypotheses hold for every constructor and are closed under c + d and k * c '
+    '(constructors_struct, struct_closed), with soundness on product domains (bct_append_sound, bct_int_mul_sound); not proved: '
+    'the structural hypotheses for concatenation c * d (double_decoding), the regime where __isub__ / += / compress() drop a non-zero coefficient below '
     '1e-8, and equality of the term dictionaries (not only of the operators) with jordan_wigner / bravyi_kitaev (covered by the transform '
     'stream: Model correspondence + Spec oracle on every encoded domain state + term-for-term comparison with jordan_wigner / '
     'bravyi_kitaev)',
